@@ -98,6 +98,17 @@ def cp_apr(  # noqa: PLR0913
         tmp.nnz == 0
     ), "Data tensor must be nonnegative for Poisson-based factorization"
 
+    # Explicitly stored zeros are not counts: the sparse row solvers assume vals != 0
+    if (
+        isinstance(input_tensor, ttb.sptensor)
+        and input_tensor.nnz > 0
+        and (input_tensor.vals == 0).any()
+    ):
+        keep = input_tensor.vals[:, 0] != 0
+        input_tensor = ttb.sptensor(
+            input_tensor.subs[keep], input_tensor.vals[keep], input_tensor.shape
+        )
+
     # Set up an initial guess for the factor matrices.
     if isinstance(init, ttb.ktensor):
         # User provided an initial ktensor; validate it
